@@ -153,7 +153,7 @@ class MCtx:
         return dict(zip(names, out))
 
 
-def mdischarge(m, unit, obligations, twins=(), timeout_ms=30000, replay=None, extra=None):
+def mdischarge(m, unit, obligations, twins=(), timeout_ms=30000, replay=None, extra=None, prefer=()):
     """obligations: [(name, violation cond)], engine obligations are added.  replay(model, entry) -> (confirmed, why, payload)"""
     res = dict(unit=unit, obligations=[], twins={}, status='ok', violations=[], unreproduced=[])
     if extra:
@@ -169,6 +169,11 @@ def mdischarge(m, unit, obligations, twins=(), timeout_ms=30000, replay=None, ex
         r, model = m.solve(cond, timeout_ms)
         ent = dict(kind=kind, name=name[:140], result=str(r), t=round(time.time() - t0, 2))
         res['obligations'].append(ent)
+        if r == z3.sat and prefer:
+            # a replayable (small) counterexample if there is one; the verdict itself does not depend on this
+            r2, model2 = m.solve([cond] + list(prefer), timeout_ms)
+            if r2 == z3.sat:
+                model = model2
         if r == z3.sat:
             if replay is None or replayed >= 3:
                 res['unreproduced'].append(dict(obligation=ent, why='no replay available for this harness' if replay is None else 'replay budget'))
